@@ -686,6 +686,49 @@ def check_printast_cli(tier, k, n, res):
         shutil.rmtree(d, ignore_errors=True)
 
 
+FLAT_UNITS = [b'f()', b'do return end', b'if (a) return', b't={}', b't={1,2,3,}', b't={a=1;}', b'x=f()', b'a:b()', b'f(g())',
+              b'function f() end', b'x=function() end', b'for i=1,2 do end', b'for k in f() do end', b'while a do end',
+              b'repeat until a', b'if a then end', b'if a then elseif b then else end', b'local x', b'local function f() end',
+              b'while a do break end', b'x=1', b'x,y=1,2', b'x+=1', b'if (a) b=1', b'if (a) b() else c()', b'?1', b'x=a and b or c',
+              b'x=-1', b'x=#t', b'x=not a', b'x=(1)', b'x=t[1]', b'x=t.a.b', b'x="s"', b'f"s"', b'f{}', b'x=a..b', b'x=a^b^c',
+              b'do end', b'function a.b:c(...) return ... end', b'x=t[f()]', b'x={f()}', b'x={{},{}}', b'return']
+FLAT_COUNTS = {'quick': [70, 260, 1100], 'thorough': [70, 130, 260, 520, 1100, 4200]}
+
+
+def check_flat(tier, res):
+    """Long FLAT programs: a statement repeated N times (one per line; `return` as the body of N functions). Whether a
+    program parses depends on its nesting, never on its length: it parses to its end, the root block holds N statements,
+    and walking the tree gives the text back."""
+    lua = lua_mod()
+    for unit in FLAT_UNITS:
+        for n in FLAT_COUNTS[tier]:
+            for sep in (b'\n', b' '):
+                if sep == b' ' and (unit.startswith(b'if (') or unit.startswith(b'?')):
+                    continue
+                one = (b'function g() return end' if unit == b'return' else unit) + sep
+                src = one * n + (b'' if sep == b'\n' else b'\n')
+                res.evaluations += 1
+                res.nontriv(('flat', unit, n, sep))
+                case = {'flat': True, 'unit': unit, 'n': n, 'sep': sep}
+                try:
+                    obj = lua.Lua.from_lines([src], version=8)
+                except Exception as e:
+                    res.violation('C08|flat|parse-raise|%s' % type(e).__name__,
+                                  '%d x %r (a valid flat program, nesting depth <= 2): %s' % (n, one, str(e)[:150]), case)
+                    continue
+                if len(obj.root.stats) != n:
+                    res.violation('C08|flat|statement-count', '%d x %r: the root block holds %d statements' % (n, one, len(obj.root.stats)), case)
+                    continue
+                if any(type(t).__name__ not in ('TokSpace', 'TokNewline', 'TokComment') for t in obj.tokens[obj.root.end_pos:]):
+                    res.violation('C08|flat|not-consumed', '%d x %r: parser stopped at token %d of %d' % (n, one, obj.root.end_pos, len(obj.tokens)), case)
+                    continue
+                echo = b''.join(obj.to_lines(writer_cls=lua.LuaASTEchoWriter))
+                if echo != src:
+                    res.violation('C08|flat|tree-echo', '%d x %r: walking the tree does not give the text back' % (n, one), case)
+                    continue
+                res.outcome(('flat', unit))
+
+
 def shards(tier, seed):
     nr = 8 if tier == 'quick' else 16
     return (program_shards(tier, seed) + [('reuse', 'c08', tier, 'stat', k, nr) for k in range(nr)] +
@@ -701,6 +744,8 @@ def run_shard(item):
     if item[0] == 'reuse':
         if item[4] == 0:
             check_label_programs(res)
+        if item[4] == 1:
+            check_flat(item[2], res)
         check_parser_reuse(item[2], item[4], item[5], res)
         check_reuse(item[2], item[4], item[5], res)
         res.sample({'family': 'reuse', 'first': [b'-- c\n'], 'second': b'-- t\nx=1\n'})
@@ -734,6 +779,9 @@ def replay(case):
     res = ShardResult()
     if 'labels' in case:
         check_label_programs(res)
+        return [(s, v[0]) for s, v in res.violations.items()]
+    if 'flat' in case:
+        check_flat('quick', res)
         return [(s, v[0]) for s, v in res.violations.items()]
     if 'parser_reuse' in case:
         for k in range(8):
